@@ -87,8 +87,8 @@ package vikja
 //@   modifies {C03} m.currentSession, m.currentParticipant, m.state, contents(s.moduleStates)
 //@   allocates
 //@   ensures m.currentSession == s && m.currentParticipant == p && m.state != nil
-//@   ensures {C16,C03} "vikja" in s.moduleStates && s.moduleStates["vikja"].(*State) == m.state
-//@   ensures {C16,C03} old("vikja" in s.moduleStates) ==> m.state == old(s.moduleStates["vikja"].(*State)) && same_contents(s.moduleStates)
+//@   ensures {C16,C03,C02} "vikja" in s.moduleStates && s.moduleStates["vikja"].(*State) == m.state
+//@   ensures {C16,C03,C02} old("vikja" in s.moduleStates) ==> m.state == old(s.moduleStates["vikja"].(*State)) && same_contents(s.moduleStates)
 //@   ensures {C03} !old("vikja" in s.moduleStates) ==> fresh(m.state)
 
 //@ func (*modules/vikja.Module).handleSetEntityAction
